@@ -1,6 +1,7 @@
 package main
 
 import (
+	"sort"
 	"fmt"
 	"go/token"
 	"go/types"
@@ -12,7 +13,7 @@ import (
 func init() {
 	register("C13", &ruleSet{
 		run:    runC13,
-		floors: map[string]int{"O1": 4, "O2": 2, "O3": 1, "O4": 1, "O5": 3},
+		floors: map[string]int{"O1": 4, "O2": 2, "O3": 1, "O4": 1, "O5": 3, "O6": 2, "O7": 2, "O8": 1},
 		explain: "Decides the existence and ordering of the give-up mechanisms (instants are not applicable to a static argument): (O1) every blocking select in " +
 			"the limiter package has a wake-up/hand-off case, a ctx.Done() case (unconditional in the cond-var wait, conditional only on the configured eviction flag " +
 			"in the queue limiter) and a timer case armed from the configured bound whenever that bound is positive (a select without a timer is reachable only when " +
@@ -90,6 +91,51 @@ func runC13(p *Prog, l *Ledger) {
 	l.Rule("O4", "no wait outside the give-up mechanisms: the wait primitive hands the condition's lock it is entered with to a waiter on every way out (the C10/O1 lock-handed-over rule on the same tree); a lock left held parks every later Acquire in Lock(), where neither timeout nor cancellation applies")
 	l.NotCovered = []string{"that the return happens at the bound and not before (exact instants / virtual clock)", "the blocking limiter's timeout is a poll interval, not a give-up bound (by design)"}
 	importObligations(p, l, "C10", "O4", func(o *Obligation) bool { return o.Rule == "O1" && strings.HasSuffix(o.Key, "/lock-handed-over") })
+
+	l.Rule("O6", "not before the bound while no capacity is offered (decided by the C12/O4 and C10/O5 rules on the same tree): a queued caller is taken out of the backlog, and its hand-off channel written or closed, only by its own give-up or together with a token acquired for it")
+	importObligations(p, l, "C12", "O6", func(o *Obligation) bool { return o.Rule == "O4" })
+
+	// ---------------- O8: nothing waits on a mutex it holds itself
+	l.Rule("O8", "no self-deadlock: no function takes (directly or through a method it calls on the same object) a sync mutex that it already holds on every path reaching that point; such a goroutine, and every Acquire that needs the mutex afterwards, blocks without any bound")
+	{
+		n8, bad := p.selfDeadlocks(p.Locksets())
+		sort.Strings(bad)
+		if len(bad) > 6 {
+			bad = bad[:6]
+		}
+		l.Check(len(bad) == 0 && n8 > 0, "O8", "module/self-deadlock", "", fmt.Sprintf("%d lock acquisitions under a held lock examined, none on a mutex already held", n8), "a goroutine waits for a mutex it holds", bad...)
+	}
+
+	// ---------------- O7: the bound that is enforced is the bound that was configured
+	l.Rule("O7", "the bound is the configured bound: every constructor of a blocking limiter stores the timeout / deadline it was given (modulo location; only a negative duration is replaced)")
+	{
+		n7 := 0
+		for _, nt := range p.Implementers(p.coreIface("Limiter")) {
+			if !strings.HasPrefix(p.TypeKey(nt), "limiter.") {
+				continue
+			}
+			st, ok := nt.Underlying().(*types.Struct)
+			if !ok {
+				continue
+			}
+			for i := 0; i < st.NumFields(); i++ {
+				ft, ok := st.Field(i).Type().(*types.Named)
+				if !ok || ft.Obj().Pkg() == nil || ft.Obj().Pkg().Path() != "time" || (ft.Obj().Name() != "Time" && ft.Obj().Name() != "Duration") {
+					continue
+				}
+				fr := FieldRef{Type: nt, Index: i, Name: st.Field(i).Name()}
+				if len(p.allocSitesOf(nt)) == 0 {
+					continue
+				}
+				n7++
+				bad := storedAsGiven(p, fr)
+				l.Check(len(bad) == 0, "O7", p.FieldKey(fr)+"/configured", "", "stored as given by every constructor", "a blocked Acquire is bounded by something other than the configured timeout / deadline", bad...)
+			}
+		}
+		if n7 == 0 {
+			l.Infra("no timeout / deadline field found on the limiter types")
+		}
+	}
 
 	// ---------------- O5: completions do not run under the condition's lock
 	l.Rule("O5", "the condition's lock, which every arriving and retrying Acquire takes before it can reach its select, is not held while a completion is delivered to the delegate's listener (a callback of unbounded duration: it runs the limit algorithm and its change listeners)")
